@@ -15,8 +15,8 @@ CLAIMED = {
    note="Keys <= 3 bytes. CBOR encoding/decoding, value round trips and decoder robustness (fxamacker/cbor, reflection-free but streaming over value graphs) are outside the claim.",
    design="5 C42"),
  "C18": dict(
-   text="Kernel: for the 24 numeric types, Bool, Address and Path (identifier <= 3 bytes): the real Equal equals mathematical equality and Less/LessEqual/Greater/GreaterEqual the mathematical order for every operand pair (so ==, < are an equivalence / total order consistent with each other), and HashInput bytes are identical exactly for equal values (natives: two symbolic values; big integers: the payload decodes back to the value and has the canonical length), including the scratch-buffer vs allocation branch.",
-   note="Operands of equal type, full width (Int/UInt hash input: |x| < 2^128). Strings/characters (NFC), type values, enums, optionals, containers and the atree dictionary itself are outside the claim.",
+   text="Kernel: for the 24 numeric types, Bool, Address, Path (identifier <= 3 bytes) and String values with directly given content (<= 3 bytes): the real Equal equals mathematical equality and Less/LessEqual/Greater/GreaterEqual the mathematical order for every operand pair (so ==, < are an equivalence / total order consistent with each other), and HashInput bytes are identical exactly for equal values (natives: two symbolic values; big integers: the payload decodes back to the value and has the canonical length), including the scratch-buffer vs allocation branch.",
+   note="Operands of equal type, full width (Int/UInt hash input: |x| < 2^128). String normalisation (NFC), characters, type values, enums, optionals, containers and the atree dictionary itself are outside the claim.",
    design="3 / 5 C18"),
  "C06": dict(
    text="Entitlement authorization algebra over a universe of 3 entitlements: the real PermitsAccess/Equal, IntersectAccess and EntitlementMapAccess.Image/Domain run on every non-empty conjunction/disjunction set, the unauthorized access and every entitlement map with <= 2 relations (+ identity), against holder semantics: permits iff every holder of the reference authorization satisfies the requirement; intersections never grant more than either side; a mapped authorization promises only what every holder of the input really obtains; errors only for unrepresentable disjunctions.",
@@ -69,7 +69,7 @@ CLAIMED = {
    note="Part of C35 only: LEB128 (full integer width; decoder buffers <= 11 bytes) and the instruction codec: for every instruction type found in bbq/opcode by go/types, Encode then DecodeInstruction returns the same instruction with the same operands and consumes exactly the encoding (operand arrays of length 0..2, thorough 3), plus PatchJumpBytecode. Compilation determinism is outside the claim (compiler over program ASTs is not encodable).", design="3 C35"),
  "C46": dict(
    text="Bounded symbolic model checking of the real rlp.ReadSize/DecodeString/DecodeList SSA: for every input of the stated lengths (all byte values, incl. 8-byte length prefixes up to 2^64-1) an SMT solver shows no run-time panic is reachable and acceptance/result equal an independent reference decoder; every feasible path is also replayed natively.",
-   note="Bounds: input length <= 10 (quick) / 14 (thorough) for strings and headers, <= 4 / 5 for unconstrained lists plus lists with a long-form first item up to 10 / 12 bytes. Trusted: go/ssa, my SSA->SMT executor (validated per path against the native build), z3/cvc5. atree array conversion in the Cadence wrapper is outside.",
+   note="Bounds: input length <= 10 (quick) / 14 (thorough) for strings and headers, <= 4 / 5 for unconstrained lists plus lists with a long-form first item up to 10 / 12 bytes. Trusted: go/ssa, my SSA->SMT executor (validated per path against the native build), z3/cvc5. The Cadence wrappers RLPDecodeString/RLPDecodeList are checked too (accept iff the library accepts and consumed all bytes, user error otherwise, same payload/items) with byte arrays as plain element lists symbolically and real atree-backed arrays natively, inputs <= 6/4 bytes.",
    design="3 C46"),
 }
 
